@@ -79,6 +79,9 @@ Proof.
   intros TU v Hdet Hh T1 T2 U1 U2 Hne G1 G2. apply Hh; try assumption. intros E. apply Hne. apply Hdet; assumption.
 Qed.
 
+Lemma thonest_ids_of_thonest : forall TU v, thonest TU v -> thonest_ids TU v.
+Proof. intros TU v Hh T1 T2 U1 U2 Hne G1 G2. apply Hh; try assumption. intros E. apply Hne. rewrite E. reflexivity. Qed.
+
 Lemma linked_lift : forall (T : tchain) v A run,
   prefix A (untag T) -> (forall Q, In Q run -> prefix Q (untag T)) ->
   linked chain addr hgt mhgC genC (@prefix block) v A run ->
@@ -520,3 +523,70 @@ Print Assumptions C01_dynamic_safety_ids_partial.
 Print Assumptions C01_static_safety_ids.
 Print Assumptions C01_static_same_height_same_block_ids.
 Print Assumptions C01_static_safety_by_ids.
+
+(* ------------------------------------------------------------------ parameter changes below the fork, blocks with identity *)
+(* tagged chains K1 and K2 both reach height f and have different blocks (tuple OR id) there *)
+Definition tdiffer_at (gh : N) (T1 T2 : tchain) (f : N) : Prop :=
+  f <= gh + N.of_nat (length T1) /\ f <= gh + N.of_nat (length T2) /\
+  firstn (N.to_nat (f - gh)) T1 <> firstn (N.to_nat (f - gh)) T2.
+
+Definition tfork_params (batch : nat) (gh : N) (s0 : store) (TU : tchain -> Prop) (vstar : list (addr * N)) (pcstar pvstar : N) : Prop :=
+  forall T1 T2 s1 a pa f, TU T1 -> TU T2 -> run_blocks batch s0 (untag T1) = Ok s1 ->
+    (exists e, In e (v_infos (s_votes s1)) /\ i_height e = a) ->
+    f <= a -> tdiffer_at gh T1 T2 f ->
+    get_params (s_params s1) a = Ok pa ->
+    p_vals pa = vstar /\ p_pc pa = pcstar /\ p_pv pa = pvstar.
+
+Lemma tfork_params_QI :
+  forall (batch : nat) (gh : N) (c : pchange) (s0 : store) (TU : tchain -> Prop)
+         (vstar : list (addr * N)) (pcstar pvstar : N) (byz : list addr),
+  (0 < batch)%nat -> init_store batch gh c = Ok s0 ->
+  tuniverseD_decl batch gh s0 TU ->
+  tfork_params batch gh s0 TU vstar pcstar pvstar ->
+  (forall v, In v (map fst vstar) -> ~ In v byz -> thonest TU v) ->
+  total_weight vstar + wsum vstar byz < pcstar + pvstar ->
+  TQI_model_decl batch gh s0 TU.
+Proof.
+  intros batch gh c s0 TU vstar pcstar pvstar byz Hb Hi HU HF Hh Hbound.
+  destruct (tuniverseD_to_view batch gh c s0 TU Hb Hi HU) as [HV Hview].
+  intros K1 K2 s1 s2 a d pa pd L1 L2 U1 U2 R1 R2 W1 W2 Hle Hoff P1 P2 N1 N2 S1 S2.
+  pose proof (Hview K1 s1 U1 R1) as V1. pose proof (Hview K2 s2 U2 R2) as V2.
+  destruct W1 as (e1 & I1 & E1). destruct W2 as (e2 & I2 & E2).
+  pose proof (window_heightsD batch Hb gh c s0 Hi _ s1 e1 V1 I1) as Hr1.
+  pose proof (window_heightsD batch Hb gh c s0 Hi _ s2 e2 V2 I2) as Hr2. rewrite E1 in Hr1. rewrite E2 in Hr2.
+  unfold VotesGhost.tipof in Hr1, Hr2. rewrite untag_length in Hr1, Hr2.
+  assert (D1 : tdiffer_at gh K1 K2 a) by (split; [lia|split; [lia|exact Hoff]]).
+  assert (D2 : tdiffer_at gh K2 K1 a) by (split; [lia|split; [lia|intros E; apply Hoff; symmetry; exact E]]).
+  destruct (HF K1 K2 s1 a pa a U1 U2 R1 (ex_intro _ e1 (conj I1 E1)) ltac:(lia) D1 P1) as (A1 & A2 & A3).
+  destruct (HF K2 K1 s2 d pd a U2 U1 R2 (ex_intro _ e2 (conj I2 E2)) Hle D2 P2) as (B1 & B2 & B3).
+  rewrite A1, A2 in S1. rewrite B1, B3 in S2.
+  destruct (quorum_intersection vstar (filter (isval vstar) L1) (filter (isval vstar) L2) byz pcstar pvstar
+              (NoDup_filter _ N1) (NoDup_filter _ N2)) as (v & H1 & H2 & Hnb);
+    [rewrite wsum_filter_isval; exact S1|rewrite wsum_filter_isval; exact S2|exact Hbound|].
+  apply filter_In in H1. apply filter_In in H2. destruct H1 as [H1 Hval], H2 as [H2 _].
+  exists v. split; [exact H1|]. split; [exact H2|]. apply Hh; [|exact Hnb].
+  unfold isval in Hval. destruct (find_weight vstar v) as [w|] eqn:Ew; [|discriminate].
+  apply (find_weight_some_in vstar v w Ew).
+Qed.
+
+(* parameter changes are harmless, also over blocks with identity, as long as every window height at or above a height where
+   two chains of the universe differ (tuple or id) is governed by one validator list / thresholds satisfying the static bound *)
+Theorem C01_dynamic_safety_ids_fork_params_partial :
+  forall (batch : nat) (gh : N) (c : pchange) (s0 : store) (TU : tchain -> Prop)
+         (vstar : list (addr * N)) (pcstar pvstar : N) (byz : list addr),
+  (0 < batch)%nat -> init_store batch gh c = Ok s0 ->
+  tuniverseD_decl batch gh s0 TU ->
+  tfork_params batch gh s0 TU vstar pcstar pvstar ->
+  (forall v, In v (map fst vstar) -> ~ In v byz -> thonest TU v) ->
+  total_weight vstar + wsum vstar byz < pcstar + pvstar ->
+  forall T1 T2 s1 s2 h1 h2, TU T1 -> TU T2 ->
+    run_blocks batch s0 (untag T1) = Ok s1 -> run_blocks batch s0 (untag T2) = Ok s2 ->
+    gh < h1 <= v_mhpc (s_votes s1) -> gh < h2 <= v_mhpc (s_votes s2) ->
+    prefix (firstn (N.to_nat (h1 - gh)) T1) (firstn (N.to_nat (h2 - gh)) T2) \/
+    prefix (firstn (N.to_nat (h2 - gh)) T2) (firstn (N.to_nat (h1 - gh)) T1).
+Proof.
+  intros batch gh c s0 TU vstar pcstar pvstar byz Hb Hi HU HF Hh Hbound.
+  apply (C01_dynamic_safety_ids_partial batch gh c s0 TU Hb Hi HU).
+  exact (tfork_params_QI batch gh c s0 TU vstar pcstar pvstar byz Hb Hi HU HF Hh Hbound).
+Qed.
+Print Assumptions C01_dynamic_safety_ids_fork_params_partial.
